@@ -218,6 +218,8 @@ def case_strategy(draw):
         elif family == "wet_dense":
             # water vapour / ammonia as a minor component of a dense gas: fugacity coefficients far from one
             pool2 = [g for g in pool if g in ("CO2(g)", "CH4(g)", "Mtg(g)", "N2(g)", "Ntg(g)", "H2S(g)", "H2Sg(g)")]
+            if draw(st.integers(0, 2)):
+                pool2 = [g for g in pool2 if g in ("CO2(g)", "H2S(g)", "H2Sg(g)")]        # carriers in which phi of water drops to ~0.01
         else:
             pool2 = pool
         pool2 = pool2 or pool
